@@ -468,9 +468,8 @@ def id_key(sc: Dict[str, Any], mode: str, scope: str, expected: Tuple[str, str],
     """finding class: reference family (or the single kind), addressing form, failure mode, where the expected and
     the actually bound object live relative to the referrer"""
     fam = "idref" if scope == "family" else "idref:" + sc["kind"]
-    rt = "" if sc.get("rtype", "BASE-VARIANT") == "BASE-VARIANT" else "/referrer=" + sc["rtype"]
     exp = loc_class(expected[1]) if expected[0] == "BIND" else "error"
-    return f"C10/{fam}/{sc['form']}{rt}/{mode}/expected={exp}/bound={loc_class(got)}"
+    return f"C10/{fam}/{sc['form']}/{mode}/expected={exp}/bound={loc_class(got)}"
 
 
 def dontcare_class(why: str) -> str:
